@@ -639,6 +639,22 @@ func runReal(c *Case) (rr realRun) {
 			rr.failure = f
 		}
 	}
+	// a second live handle on the root the main handle was opened on: it must keep reading the same whatever the
+	// main handle stages or commits afterwards (committed roots are immutable; nodes are shared through the caches)
+	reader := stater.NewState(roots[0])
+	readerSweep, _ := sweep(c, reader)
+	checkReader := func(when string) {
+		sw, err := sweep(c, reader)
+		if err != nil {
+			fail("committed root changed under a live reader: after " + when + " the reader fails: " + err.Error())
+		} else if sw != readerSweep {
+			fail("committed root changed under a live reader: a state opened earlier on the same root reads differently after " + when)
+		}
+	}
+	newReader := func(root trie.Root) {
+		reader = stater.NewState(root)
+		readerSweep, _ = sweep(c, reader)
+	}
 	for _, op := range c.Ops {
 		so := stepObs{text: "."}
 		switch op.K {
@@ -733,15 +749,25 @@ func runReal(c *Case) (rr realRun) {
 			if f := reopenProperty(c, before, after); f != "" {
 				fail(f)
 			}
+			checkReader("a commit through another handle")
 			if op.Reopen {
 				st = ns
 				cpSweeps = map[int]string{}
 				depth = 1
+				newReader(root)
 			}
+		case "stagedrop":
+			// Stage without Commit: must be a pure computation (no effect on this state object or on committed roots)
+			if _, err := st.Stage(trie.Version{Major: 4000000 + uint32(len(rr.steps))}); err != nil {
+				rr.err = "stage (dropped): " + err.Error()
+				return
+			}
+			checkReader("a Stage (not committed) through another handle")
 		case "open":
 			st = stater.NewState(roots[op.N])
 			cpSweeps = map[int]string{}
 			depth = 1
+			newReader(roots[op.N])
 		case "obs":
 			sw, err := sweep(c, st)
 			if err != nil {
@@ -944,6 +970,8 @@ func oracleLine(c *Case) string {
 			fmt.Fprintf(&b, " open %d", op.N)
 		case "obs":
 			b.WriteString(" obs")
+		case "stagedrop":
+			b.WriteString(" rev 9999") // no-op in the model: stage is a pure function of the state
 		}
 	}
 	return b.String()
@@ -1075,18 +1103,29 @@ func genCase(r *hx.Rand, idx int) *Case {
 	if large {
 		na, nk = r.Range(20, 40), r.Range(10, 30)
 	}
+	// in half of the small universes the secure keys share their first byte (extension node above a branch:
+	// the shapes where insert splits and delete merges short nodes)
+	share := !large && r.Bool()
+	pick := func(n int, fixed func(i int) []byte) []byte {
+		for tries := 0; ; tries++ {
+			b := r.Bytes(n)
+			if !share || tries > 3000 || thor.Blake2b(b).Bytes()[0] == 0x5a {
+				return b
+			}
+		}
+	}
 	for i := 0; i < na; i++ {
-		if !large && r.Chance(1, 3) {
+		if !large && !share && r.Chance(1, 3) {
 			c.Addrs = append(c.Addrs, hex.EncodeToString(append(make([]byte, 19), byte(i+1))))
 		} else {
-			c.Addrs = append(c.Addrs, hex.EncodeToString(r.Bytes(20)))
+			c.Addrs = append(c.Addrs, hex.EncodeToString(pick(20, nil)))
 		}
 	}
 	for i := 0; i < nk; i++ {
-		if r.Chance(1, 3) {
+		if !share && r.Chance(1, 3) {
 			c.Keys = append(c.Keys, hex.EncodeToString(append(make([]byte, 31), byte(i)))) // includes the zero key
 		} else {
-			c.Keys = append(c.Keys, hex.EncodeToString(r.Bytes(32)))
+			c.Keys = append(c.Keys, hex.EncodeToString(pick(32, nil)))
 		}
 	}
 	if large {
@@ -1164,8 +1203,11 @@ func genCase(r *hx.Rand, idx int) *Case {
 				raw, _ = rlp.EncodeToBytes(r.Bytes(r.Range(1, 32)))
 			}
 			emit(Op{K: "raw", A: a, S: s, V: hex.EncodeToString(raw)})
-		case x < 68:
+		case x < 66:
 			emit(Op{K: "del", A: a})
+		case x < 68:
+			emit(Op{K: "stagedrop"})
+			structural = true
 		case x < 78:
 			emit(Op{K: "cp"})
 			depth++
@@ -1346,7 +1388,11 @@ func runCases(ctx *hx.Ctx, cases []*Case) {
 			if os.Getenv("C06_DEBUG") != "" {
 				fmt.Fprintln(os.Stderr, "original disagreement:", d)
 			}
-			d = disagreement(sc, &rr, a[0])
+			if d2 := disagreement(sc, &rr, a[0]); d2 != "" {
+				d = d2
+			} else {
+				sc = c // not reproducible on the shrunk case (depends on node sharing / iteration order): keep the original
+			}
 			ctx.Violation("correspondence:state:"+classOf(d),
 				"state model and state.State disagree (state_refines_map / stage_root_canonical no longer describe the code); no input found on which the property's own predicates fail: "+d,
 				map[string]any{"stream": "state", "case": sc}, false)
